@@ -208,6 +208,8 @@ class SecWalk:
     def split(self, ratio=None, unsplit=None):
         self._event_date_ok(self.o.strict_splits)
         r = self.r
+        if not self.o.strict_splits and self.trade_dates and r.random() < 0.6 and max(self.trade_dates) >= self.date - dt.timedelta(days=400):
+            self.date = max(self.trade_dates)      # put the split on the latest trade date of the security
         if ratio is None:
             pool = SPLIT_RATIOS_TERM + (SPLIT_RATIOS_NONTERM if self.o.nonterm_splits else [])
             ratio = r.choice(pool)
